@@ -108,6 +108,7 @@ func (c *Channel) handleEvents(eventsSub watcher.AdjudicatorSub, h AdjudicatorEv
 			if err != nil {
 				return errors.WithMessage(err, "setting machine phase")
 			}
+			c.refuteIfOutdated(e)
 
 			// Notify handler
 			go h.HandleAdjudicatorEvent(e)
@@ -137,6 +138,26 @@ func (c *Channel) setMachinePhase(ctx context.Context, e channel.AdjudicatorEven
 	}
 
 	return
+}
+
+// refuteIfOutdated registers the channel tree if the registered state is older
+// than our current state.
+//
+// The watcher refutes with the newest state that was published to it when it
+// handled the event. An update that was still in flight at that moment is
+// enabled afterwards, before the machine enters the `Registered` phase, and no
+// further adjudicator event would make the watcher register it. From the
+// `Registered` phase on the current state does not change any more, so
+// comparing it with the registered version here closes that gap.
+func (c *Channel) refuteIfOutdated(e channel.AdjudicatorEvent) {
+	if _, ok := e.(*channel.RegisteredEvent); !ok || e.Version() >= c.State().Version {
+		return
+	}
+	go func() {
+		if err := c.registerDispute(c.Ctx()); err != nil {
+			c.Log().Warnf("refuting outdated registered version %d: %v", e.Version(), err)
+		}
+	}()
 }
 
 // registerDispute registers a dispute for the channel and all its relatives.
